@@ -403,10 +403,16 @@ open SciVerif.C01
 """
 
 
-def render_c01(cfg, doc):
+def render_c01(cfg, doc, atom_rows=None):
+    atom = ""
+    if atom_rows is not None:
+        atom = ("\n/-- what each method of the stock AtomBase computes from the operand values L and R\n"
+                "    (abstract probing with symbolic scalars that are floats) -/\n"
+                "def atomBaseOps : List (String × String) := [\n"
+                + ",\n".join("  (%s, %s)" % (lstr(m), lstr(d)) for m, d in atom_rows) + "]\n")
     return (HEADER % ("c01.py (gen_tables)", "C01") + lconfig(cfg, "dflt")
             + "\n/-- the table 'Operation steps' of docs/source/solver/index.rst -/\n"
-            + "def docSteps : List (List String × Otype) :=\n  " + lsteps(doc) + "\n\nend SciVerif.C01.Gen\n")
+            + "def docSteps : List (List String × Otype) :=\n  " + lsteps(doc) + "\n" + atom + "\nend SciVerif.C01.Gen\n")
 
 
 def render_c02(cfgs):
@@ -414,3 +420,99 @@ def render_c02(cfgs):
     for ident, cfg in cfgs:
         body += lconfig(cfg, ident) + "\n"
     return body + "end SciVerif.C02.Gen\n"
+
+
+# ------------------------------------------------------------------ the stock atom: which Python operation each method applies
+ATOM_METHODS = ["__add__", "__sub__", "__mul__", "__truediv__", "__pow__", "__neg__", "log", "log10", "sqrt", "sin",
+                "cos", "tan", "logical_and", "logical_or", "logical_not", "__eq__", "__ne__", "__le__", "__ge__",
+                "__lt__", "__gt__"]
+
+
+class _Rec:
+    """result of a Python operator applied to symbolic scalars"""
+
+    def __init__(self, text):
+        self.text = text
+
+
+class SymF(float):
+    """symbolic scalar that IS a float (isinstance checks and numpy conversions see a float) and records the
+    Python operators applied to it"""
+
+    def __new__(cls, name, v):
+        o = float.__new__(cls, v)
+        o.name = name
+        return o
+
+    def _b(self, sym, o):
+        return _Rec("%s %s %s" % (self.name, sym, getattr(o, "name", "?")))
+
+    def __add__(self, o): return self._b("+", o)
+    def __sub__(self, o): return self._b("-", o)
+    def __mul__(self, o): return self._b("*", o)
+    def __truediv__(self, o): return self._b("/", o)
+    def __pow__(self, o): return self._b("**", o)
+    def __eq__(self, o): return self._b("==", o)
+    def __ne__(self, o): return self._b("!=", o)
+    def __le__(self, o): return self._b("<=", o)
+    def __ge__(self, o): return self._b(">=", o)
+    def __lt__(self, o): return self._b("<", o)
+    def __gt__(self, o): return self._b(">", o)
+    def __neg__(self): return _Rec("-%s" % self.name)
+    __hash__ = float.__hash__
+
+
+def probe_atombase():
+    """[(method, description of what it computes from the operand values L and R)] for the live AtomBase"""
+    import warnings
+    import numpy as np
+    from scinumtools.solver import AtomBase
+    npf = {"np.log": np.log, "np.log10": np.log10, "np.sqrt": np.sqrt, "np.sin": np.sin, "np.cos": np.cos,
+           "np.tan": np.tan, "np.exp": np.exp}
+    rows = []
+    for m in ATOM_METHODS:
+        descs = []
+        for lv, rv in ((1.5, 0.75), (0.0, 2.5), (2.0, 0.0)):
+            L, R = SymF("L", lv), SymF("R", rv)
+            f = getattr(AtomBase, m, None)
+            if f is None:
+                descs.append("absent")
+                continue
+            try:
+                with warnings.catch_warnings():
+                    warnings.simplefilter("ignore")
+                    res = f(AtomBase(L)) if f.__code__.co_argcount == 1 else f(AtomBase(L), AtomBase(R))
+            except Exception as ex:
+                descs.append("raises " + type(ex).__name__)
+                continue
+            if not isinstance(res, AtomBase):
+                descs.append("returns " + type(res).__name__)
+                continue
+            v = res.value
+            if isinstance(v, _Rec):
+                d = v.text
+            elif v is L:
+                d = "L"
+            elif v is R:
+                d = "R"
+            elif isinstance(v, (bool, np.bool_)):
+                d = "bool:%s" % bool(v)
+            else:
+                hit = [n for n, g in npf.items() if lv > 0 and repr(g(lv)) == repr(v)]
+                d = "%s(L)" % hit[0] if len(hit) == 1 else ("value" if lv > 0 else "value0")
+            descs.append(d)
+        # summarise the three probes
+        if len(set(descs)) == 1:
+            desc = descs[0]
+        elif descs == ["R", "L", "R"]:
+            desc = "L and R"
+        elif descs == ["L", "R", "L"]:
+            desc = "L or R"
+        elif descs == ["bool:False", "bool:True", "bool:False"]:
+            desc = "not bool(L)"
+        elif descs[0].startswith("np.") and descs[0] == descs[2]:
+            desc = descs[0]
+        else:
+            desc = " | ".join(descs)
+        rows.append((m, desc))
+    return rows
